@@ -162,6 +162,7 @@ func init() {
 			return e.havocVal(cc.resT, cc.f.prefix+"dcjson")
 		}
 		fresh := e.freshRef(st, "dcjson")
+		e.markDeepFresh(st, fresh)
 		dn, ds, vn, vs := e.mapNames(mt)
 		ln, ls := e.mapLenName(mt)
 		d, v, l := e.comp(st, dn, ds), e.comp(st, vn, vs), e.comp(st, ln, ls)
@@ -196,7 +197,7 @@ func init() {
 	// (*metav1.ObjectMeta).GetObjectMeta returns the receiver as metav1.Object: never nil for a non-nil receiver
 	specTable["(*k8s.io/apimachinery/pkg/apis/meta/v1.ObjectMeta).GetObjectMeta"] = func(e *Exec, cc *callCtx) Val {
 		v := e.uninterp("ext_metav1.ObjectMeta.GetObjectMeta", cc.args, cc.resT)
-		e.assume(Not(Eq(v.Term, "nil_any")), "GetObjectMeta returns the object itself")
+		e.assume(And(Not(Eq(v.Term, "nil_any")), Not(Eq(app("ref", v.Term), "0"))), "GetObjectMeta returns the (non-nil) object itself")
 		return v
 	}
 	// generated typed client for ControllerRevisions: an effect with an arbitrary (result, err); on success the stored object is returned
@@ -208,5 +209,12 @@ func init() {
 			e.assume(Implies(Eq(v.Tup[1].Term, "nil_any"), Not(Eq(v.Tup[0].Term, "0"))), "a successful ControllerRevision "+verb+" returns the stored object")
 			return v
 		}
+	}
+}
+
+func init() {
+	// deepfresh(m): the JSON map m was produced by a deep copy in this activation (ghost; see markDeepFresh)
+	specFuncs["deepfresh"] = func(e *Exec, env *Env, args []Val) (Val, error) {
+		return Val{T: tBool, Term: Select(e.comp(env.cur, "DEEPFRESH", "(Array Int Bool)"), e.refOfVal(args[0]))}, nil
 	}
 }
